@@ -20,7 +20,7 @@ from ..term import Resolver, pmatch, find_all, abstract, anf_of
 REL = "inference/approx/conditional.py"
 FLOORS = {"float-arithmetic": 1, "edge-search": 1, "inverse-cdf": 1, "taylor-branch": 2, "branch-dispatch": 1, "delta-form": 2, "cell-weight": 1,
           "sample-form": 2, "normalised": 1, "grid-in-bounds": 1,
-          "conditioning-point": 2, "every-parameter-covered": 2}
+          "conditioning-point": 2, "every-parameter-covered": 2, "sampling-form": 1}
 
 
 def _bracketing(fn):
@@ -215,6 +215,20 @@ def run(prog, tier):
                         g_ = _bracketing(callee)
                         if g_:
                             edge_why.append(f"edge search `{n.func.id}` {g_}")
+                        # the iteration budget the halving argument relies on is the callee's default: a smaller one given at the call
+                        # site stops the search before the crossing is located
+                        cparams = [a.arg for a in callee.args.args]
+                        cdef = dict(zip(cparams[len(cparams) - len(callee.args.defaults):], callee.args.defaults))
+                        given = {cparams[k_]: a_ for k_, a_ in enumerate(n.args) if k_ < len(cparams)}
+                        given.update({k_.arg: k_.value for k_ in n.keywords if k_.arg})
+                        for pn_, dv_ in cdef.items():
+                            if pn_ in given and isinstance(dv_, ast.Constant) and isinstance(dv_.value, (int, float)) and ("itr" in pn_ or "iter" in pn_):
+                                gv_ = given[pn_]
+                                if isinstance(gv_, ast.Constant) and isinstance(gv_.value, (int, float)):
+                                    if gv_.value < dv_.value:
+                                        edge_why.append(f"`{U(n)[:80]}` cuts the iteration budget of `{n.func.id}` from {dv_.value} to {gv_.value}")
+                                else:
+                                    raise AnalysisError(f"edge-search: the iteration budget `{pn_}={U(gv_)}` handed to {n.func.id} is not a constant - not decided")
     obs.append(struct_ob("edge-search", fqual(mi, ec), not edge_why and n_search >= 2,
                          "each grid edge must come from a threshold-crossing search that halves its bracket every iteration (so that a fixed "
                          "number of iterations locates the crossing for any bounds): " + "; ".join(edge_why) + f" [{n_search} searches found]",
@@ -314,6 +328,23 @@ def run(prog, tier):
 
     from .common import column_loop_obligations
     obs.extend(column_loop_obligations(prog, "every-parameter-covered", REL, ["get_conditionals", "conditional_sample"]))
+    # conditional_sample draws every column with the sampler decided above (piecewise_linear_sample), from that column's own axis and
+    # density: another inverse-cdf written in place is not the piecewise-linear law the tables describe
+    csf = prog.function(REL, "conditional_sample")
+    rcs = Resolver(csf, prog, mi, None)
+    col_stores = [s_ for s_ in ast.walk(csf) if isinstance(s_, ast.Assign) and len(s_.targets) == 1 and isinstance(s_.targets[0], ast.Subscript)
+                  and pmatch(s_.targets[0], "_a[:, _i]") is not None]
+    whyc = []
+    for s_ in col_stores:
+        bi = pmatch(s_.targets[0], "_a[:, _i]")
+        vt = rcs.term(s_.value, s_)
+        ok_ = any(pmatch(vt, pt_, {"_i": bi["_i"]}) is not None for pt_ in ("piecewise_linear_sample(_x[:, _i], _p[:, _i], _n)",
+                                                                             "piecewise_linear_sample(_x[:, _i], _p[:, _i], _n, **_)"))
+        if not ok_:
+            whyc.append(f"line {s_.lineno}: column {bi['_i']} is `{U(vt)[:140]}`")
+    obs.append(struct_ob("sampling-form", fqual(mi, csf) + "[columns]", bool(col_stores) and not whyc,
+                         "every column of the conditional sample must be drawn by piecewise_linear_sample from that column's axis and density: "
+                         + "; ".join(whyc[:2]), REL, csf.lineno, tier="F"))
     obs.extend(dtype_hazard_obligations(prog, "float-arithmetic", ['inference/approx/conditional.py']))
     from .common import call_order_obligations
     obs.extend(call_order_obligations(prog, "arguments-in-order", ['inference/approx/conditional.py']))
